@@ -1585,8 +1585,9 @@ theorem c06_shape_Overlay_handleRequestTreeDeprecated :
 
 theorem c06_shape_treeStorage_GetRoster :
     Shapes.treestorage_treeStorage_GetRoster =
-   ["ts.Lock", "defer:ts.Unlock", "if:((tree!=nil)&&tree.Roster.ID.Equal(id))",
-     "return:tree.Roster", "return:nil"] := rfl
+   ["ts.Lock", "defer:ts.Unlock",
+     "if:(((tree!=nil)&&(tree.Roster!=nil))&&tree.Roster.ID.Equal(id))", "return:tree.Roster",
+     "return:nil"] := rfl
 
 
 end C06
